@@ -146,13 +146,23 @@ RdI(L, md, s, f) == Rd(L, md, s, f, "i")
 RdD(L, md, s, f) == Rd(L, md, s, f, "d")
 RdS(L, md, s, f) == Rd(L, md, s, f, "s")
 
+\* a count read from the file drives a loop of reads: when it exceeds what the file can still provide, the intended
+\* reader refuses; the real reader goes on (end of file => default values): beyond the bound of the model this is
+\* reported as the event "loopUnbounded" (time / memory proportional to a number taken from the file)
+LoopGuard(L, md, s, n) ==
+  IF ~s.ok \/ n <= RemainingTokens(L, s) + 1 THEN s
+  ELSE IF md = "ideal" THEN Fail(s, "badCount")
+  ELSE IF n > 40 THEN FailAt(Ev(s, "loopUnbounded"), "modelBound", "loop")
+  ELSE s
+
 \* n successive _recordRead of the same kind, gathered in a sequence field f
-RECURSIVE RdMany(_, _, _, _, _, _)
-RdMany(L, md, s, f, kind, n) ==
+RECURSIVE RdManyRec(_, _, _, _, _, _)
+RdManyRec(L, md, s, f, kind, n) ==
   IF n <= 0 \/ ~s.ok THEN (IF f \in DOMAIN s.o THEN s ELSE Put(s, f, <<>>))
   ELSE LET s0 == IF f \in DOMAIN s.o THEN s ELSE Put(s, f, <<>>)
            r  == Rd(L, md, s0, "tmp", kind)
-       IN IF r.ok THEN RdMany(L, md, Put(r, f, Append(s0.o[f], r.o.tmp)), f, kind, n - 1) ELSE r
+       IN IF r.ok THEN RdManyRec(L, md, Put(r, f, Append(s0.o[f], r.o.tmp)), f, kind, n - 1) ELSE r
+RdMany(L, md, s, f, kind, n) == RdManyRec(L, md, LoopGuard(L, md, s, n), f, kind, n)
 
 \* next non-empty, non-comment line (from the current position)
 RECURSIVE FindLine(_, _, _)
@@ -253,7 +263,7 @@ R_DbPart(L, md, s0) ==
       s3   == IF ncol > 0 THEN RdVec(L, md, RdVec(L, md, sc, "locators", "s", ncol), "names", "s", ncol)
               ELSE Put(Put(sc, "locators", <<>>), "names", <<>>)
       s4   == Alloc(L, md, s3, BigCount(nech, ncol))
-      s5   == R_DbRows(L, md, Put(s4, "rows", <<>>), 1, nech, ncol)
+      s5   == R_DbRows(L, md, Put(LoopGuard(L, md, s4, nech), "rows", <<>>), 1, nech, ncol)
   IN IF ~s5.ok THEN s5 ELSE
      LET locs == s5.o.locators
          bad  == \E k \in DOMAIN locs : LocIdentify(locs[k]).err
@@ -338,7 +348,7 @@ R_DbGrid(L, md, s0) ==
   LET s1 == RdI(L, md, s0, "ndim")
       nd == Gd(s1, "ndim", 0)
       s2 == Alloc(L, md, s1, nd)                                   \* nx.resize(ndim) ...
-      s3 == R_GridDims(L, md, Put(Put(Put(Put(s2, "nx", <<>>), "x0", <<>>), "dx", <<>>), "angles", <<>>), 1, nd)
+      s3 == R_GridDims(L, md, Put(Put(Put(Put(LoopGuard(L, md, s2, nd), "nx", <<>>), "x0", <<>>), "dx", <<>>), "angles", <<>>), 1, nd)
   IN IF ~s2.ok THEN ResFail(s2) ELSE
   LET ntot == IF \E d \in DOMAIN s3.o.nx : s3.o.nx[d] < 0 \/ s3.o.nx[d] > 40000 THEN -1 ELSE ProdSeq(s3.o.nx)
       s4 == IF md = "ideal" /\ s3.ok /\ ntot < 0 THEN Fail(s3, "badCount") ELSE s3
@@ -442,8 +452,8 @@ R_Model(L, md, s0) ==
       nvar == s5.o.nvar
       sa == IF md = "ideal" /\ (ndim < 1 \/ nvar < 1 \/ ndim > 3 \/ s5.o.ncova < 0 \/ s5.o.nbfl < 0) THEN Fail(s5, "badCount") ELSE s5
       sb == Alloc(L, md, Alloc(L, md, sa, BigCount(nvar, nvar)), ndim)           \* CovContext(nvar, ndim)
-      s6 == R_Covs(L, md, Put(sb, "covs", <<>>), 1, IF sb.ok THEN s5.o.ncova ELSE 0, ndim)
-      s7 == R_Drifts(L, md, Put(s6, "drifts", <<>>), 1, IF s6.ok THEN s5.o.nbfl ELSE 0)
+      s6 == R_Covs(L, md, Put(LoopGuard(L, md, sb, s5.o.ncova), "covs", <<>>), 1, IF sb.ok THEN s5.o.ncova ELSE 0, ndim)
+      s7 == R_Drifts(L, md, Put(LoopGuard(L, md, s6, s5.o.nbfl), "drifts", <<>>), 1, IF s6.ok THEN s5.o.nbfl ELSE 0)
       s8 == IF s7.ok /\ s5.o.nbfl <= 0 THEN RdMany(L, md, Put(s7, "means", <<>>), "means", "d", nvar) ELSE Put(s7, "means", <<>>)
       s9 == R_Sills(L, md, s8, 1, IF s8.ok THEN s5.o.ncova ELSE 0, nvar)
       sA == RdMany(L, md, Put(s9, "covar0", <<>>), "covar0", "d", IF s9.ok THEN nvar * nvar ELSE 0)
@@ -639,7 +649,7 @@ R_Vario(L, md, s0) ==
             ELSE Put(sb, "names", Cst(IF sb.ok /\ nvar > 0 /\ nvar < 1000 THEN nvar ELSE 0, "Unknown"))
       sc == Alloc(L, md, s6, BigCount(nvar, nvar))                     \* vars.resize(nvar * nvar)
       s7 == IF fc # 0 THEN RdMany(L, md, Put(sc, "vars", <<>>), "vars", "d", IF sc.ok THEN nvar * nvar ELSE 0) ELSE Put(sc, "vars", <<>>)
-      s8 == R_VarioDirs(L, md, Put(Alloc(L, md, s7, s5.o.ndir), "dirs", <<>>), 1, IF s7.ok THEN s5.o.ndir ELSE 0, ndim, nvar, fc)
+      s8 == R_VarioDirs(L, md, Put(LoopGuard(L, md, Alloc(L, md, s7, s5.o.ndir), s5.o.ndir), "dirs", <<>>), 1, IF s7.ok THEN s5.o.ndir ELSE 0, ndim, nvar, fc)
   IN Res(s8, [ndim |-> ndim, nvar |-> nvar, scale |-> s8.o.scale, names |-> s8.o.names, vars |-> s8.o.vars, dirs |-> s8.o.dirs])
 
 CodirPatterns(nd) == CASE nd = 1 -> << <<"1">> >>
@@ -700,7 +710,7 @@ R_PolyLine(L, md, s0) ==
   LET s1 == RdI(L, md, s0, "np") IN
   IF ~s1.ok THEN s1
   ELSE IF s1.o.np < 0 THEN Fail(s1, "badCount")
-  ELSE R_Points(L, md, Put(Alloc(L, md, s1, s1.o.np), "xy", <<>>), 1, s1.o.np)
+  ELSE R_Points(L, md, Put(LoopGuard(L, md, Alloc(L, md, s1, s1.o.np), s1.o.np), "xy", <<>>), 1, s1.o.np)
 R_PolyElem(L, md, s0) == R_PolyLine(L, md, RdD(L, md, RdD(L, md, s0, "zmin"), "zmax"))
 RECURSIVE R_PolyElems(_, _, _, _, _)
 R_PolyElems(L, md, s, k, n) ==
@@ -711,7 +721,7 @@ R_PolyElems(L, md, s, k, n) ==
 R_Polygons(L, md, s0) ==
   LET s1 == RdI(L, md, s0, "npol")
       s2 == IF s1.ok /\ md = "ideal" /\ s1.o.npol < 0 THEN Fail(s1, "badCount") ELSE s1
-      s3 == R_PolyElems(L, md, Put(s2, "elems", <<>>), 1, IF s2.ok THEN (IF s2.o.npol > 1000 THEN 1000 ELSE s2.o.npol) ELSE 0)
+      s3 == R_PolyElems(L, md, Put(LoopGuard(L, md, s2, Gd(s2, "npol", 0)), "elems", <<>>), 1, IF s2.ok THEN s2.o.npol ELSE 0)
   IN Res(s3, [elems |-> s3.o.elems])
 W_PolyLine2D(o) == W_PolyLine(o.xy)
 R_PolyLine2D(L, md, s0) == LET r == R_PolyLine(L, md, s0) IN Res(r, [xy |-> r.o.xy])
@@ -842,7 +852,7 @@ FaultList(L, c) ==
   \o [l \in 1..(Len(L) - 1) |-> [kind |-> "dropline", k |-> l + 1, t |-> ""]]
 
 \* events of the transcribed reader that are memory-unsafe or unbounded in the real code
-UnsafeEvents == {"vecOverflow", "allocNegative", "allocHuge", "allocUnbounded", "writeUnsized", "useAfterClear", "gridSizeMismatch", "badEnum"}
+UnsafeEvents == {"vecOverflow", "allocNegative", "allocHuge", "allocUnbounded", "loopUnbounded", "writeUnsized", "useAfterClear", "gridSizeMismatch", "badEnum"}
 \* events by which the transcribed reader accepts what the intended reader refuses
 LenientEvents == {"eofDefault", "wordAsZero", "dbPartIgnored", "uninitReturn"}
 
